@@ -27,6 +27,9 @@ Wrapper
 * `C17_unit_failure_sets_last_error` / `C17_streaming_failure_reported`
                                 same for every entry point called inside handlers, including (since /repo
                                 9f8617f, finding F21 fixed) the three rejection paths of `streaming_*`.
+* `C17_str_marshalling_new/_opt/_injective`
+                                `Str::new` / `Str::from_opt`: the C caller gets non-NULL + the exact bytes for
+                                `String` / `Some(v)` (also for ""), NULL exactly for `None`.
 * `C17_utf8_never_reaches_R`    an argument that is not valid UTF-8 is answered with the failure value and the
                                 `Utf8Error` in `LAST_ERROR`; the unit is untouched.
 (sink bytes are handed through unchanged by construction of `applyEvents`; their equality with the Rust run is
@@ -167,7 +170,7 @@ open LolHtml.Model.CApi.Mini in
 def iterWitnessCalls : List (Call MiniR.Chunk) :=
   [ ⟨0, .builderNew 1⟩, ⟨0, .selectorParse 2 [42]⟩, ⟨0, .addElem 1 2 (some 0) none none⟩,
     ⟨0, .build 3 1 [1] ⟨0, 1024, false⟩ false false⟩,
-    ⟨0, .write 3 ⟨[⟨{ kind := .element, attrs := [[105, 100]] }, [0]⟩], []⟩⟩ ]
+    ⟨0, .write 3 ⟨[⟨{ kind := .element, attrs := [([105, 100], [])] }, [0]⟩], []⟩⟩ ]
 
 open LolHtml.Model.CApi.Mini in
 /-- Under the header as written the model (like the code) reads through a dangling iterator. -/
@@ -441,6 +444,54 @@ theorem C17_utf8_never_reaches_R (pol : Policy) (t : Tid) (s : HState R) (f : Na
     cUnitOp pol t s (.optStrGet dst f args) =
       .ok { s with env := nullStr (saveLastError s.env t (.utf8 err)) dst } := by
   simp [cUnitOp, hdec, pure]
+
+/-- `Str` marshalling of the getters that cannot be absent (`Str::new`, string.rs:19): the C caller gets a
+    non-NULL `Str` carrying exactly the Rust string — also when it is empty (`len = 0`, `data != NULL`). -/
+theorem C17_str_marshalling_new (pol : Policy) (t : Tid) (s s' : HState R) (dst f : Nat)
+    (h : cUnitOp pol t s (.strGet dst f) = .ok s') :
+    ∃ v, (R.unitOp s.u (.get f [])).2.1 = .str v ∧ s'.env.log.head? = some (.strv (some v)) ∧
+      ∃ hd, s'.env.vars dst = some hd := by
+  simp only [cUnitOp, Res.bind_ok] at h
+  obtain ⟨⟨s1, r⟩, hc, h⟩ := h
+  have hr := (callR_spec hc).2
+  split at h
+  · rename_i v heq
+    simp only [Res.pure_ok] at h; subst h
+    simp only at heq
+    exact ⟨v, by rw [← hr, heq], by simp [allocStr, alloc, Env.out, Env.setVar],
+      ⟨s1.env.objs.length, by simp [allocStr, alloc, Env.out, Env.setVar]⟩⟩
+  · simp at h
+
+/-- `Str` marshalling of the optional getters (`Str::from_opt`, string.rs:33; `get_attribute`, doctype
+    name / public id / system id): `None` ↔ `data == NULL`, `Some(v)` ↔ non-NULL `Str` with the bytes of
+    `v`. In particular `Some("")` and `None` are told apart (the header's NULL contract). -/
+theorem C17_str_marshalling_opt (pol : Policy) (t : Tid) (s s' : HState R) (dst f : Nat)
+    (args a : List Bytes) (hdec : decodeArgs args = .ok a)
+    (h : cUnitOp pol t s (.optStrGet dst f args) = .ok s') :
+    ∃ o, (R.unitOp s.u (.get f a)).2.1 = .optStr o ∧ s'.env.log.head? = some (.strv o) ∧
+      (o = none ↔ s'.env.vars dst = none) := by
+  simp only [cUnitOp, hdec, Res.bind_ok] at h
+  obtain ⟨⟨s1, r⟩, hc, h⟩ := h
+  have hr := (callR_spec hc).2
+  split at h
+  · rename_i v heq
+    simp only [Res.pure_ok] at h; subst h
+    simp only at heq
+    exact ⟨some v, by rw [← hr, heq], by simp [allocStr, alloc, Env.out, Env.setVar],
+      by simp [allocStr, alloc, Env.out, Env.setVar]⟩
+  · rename_i heq
+    simp only [Res.pure_ok] at h; subst h
+    simp only at heq
+    exact ⟨none, by rw [← hr, heq], by simp [nullStr, Env.out, Env.setVar],
+      by simp [nullStr, Env.out, Env.setVar]⟩
+  · simp at h
+
+/-- The marshalling is injective on what the C caller sees: different Rust results give different logged
+    values; present-but-empty is not NULL. -/
+theorem C17_str_marshalling_injective (o₁ o₂ : Option Bytes) (h : CRes.strv o₁ = CRes.strv o₂) : o₁ = o₂ := by
+  cases h; rfl
+
+example : CRes.strv (some []) ≠ CRes.strv none := by decide
 
 /-- Result encoding of a fallible setter: `Ok(())` ↦ 0, `Err(e)` ↦ -1 with `e` recorded for thread `t`. -/
 theorem C17_fallible_encoding (pol : Policy) (t : Tid) (s s' : HState R) (f : Nat)
@@ -750,7 +801,7 @@ open LolHtml.Model.CApi.Mini in
 def demoCalls : List (Call MiniR.Chunk) :=
   [ ⟨0, .builderNew 1⟩, ⟨0, .selectorParse 2 [42]⟩, ⟨0, .addElem 1 2 (some 0) none none⟩,
     ⟨0, .build 3 1 [1] ⟨0, 1024, false⟩ true false⟩, ⟨0, .builderFree 1⟩,
-    ⟨1, .write 3 ⟨[⟨{ kind := .element, attrs := [[105, 100]] }, [0]⟩], []⟩⟩,
+    ⟨1, .write 3 ⟨[⟨{ kind := .element, attrs := [([105, 100], [])] }, [0]⟩], []⟩⟩,
     ⟨1, .end_ 3⟩, ⟨2, .rewriterFree 3⟩, ⟨0, .selectorFree 2⟩,
     ⟨0, .takeLastError 5⟩, ⟨1, .takeLastError 6⟩, ⟨1, .strFree 6⟩ ]
 
@@ -766,6 +817,19 @@ def demoCheck : Bool :=
   | _ => false
 
 example : demoCheck = true := by decide +kernel
+
+open LolHtml.Model.CApi.Mini in
+/-- Marshalling on the replay machine: `<a href title="">`, handler reads `href` (valueless: present, empty),
+    `title` (empty), `id` (absent), the tag name: non-NULL/len 0, non-NULL/len 0, NULL, non-NULL "a". -/
+example :
+    (match cUnitOps (R := MiniR) .header 0
+        ⟨{ kind := .element, name := [97], attrs := [([104, 114, 101, 102], []), ([116, 105, 116, 108, 101], [])] },
+          Env.init MiniR⟩
+        [.optStrGet 1 4 [[104, 114, 101, 102]], .optStrGet 2 4 [[116, 105, 116, 108, 101]],
+         .optStrGet 3 4 [[105, 100]], .strGet 4 0] with
+      | .ok s => s.env.log == [.strv (some [97]), .strv none, .strv (some []), .strv (some [])]
+      | _ => false) = true := by
+  decide +kernel
 
 /-- `str::from_utf8` vectors (values of `valid_up_to` / `error_len` as returned by rustc's std). -/
 example : utf8Check [0xff] = some ⟨0, some 1⟩ ∧ utf8Check [0x61, 0x62, 0xc3] = some ⟨2, none⟩ ∧
